@@ -9,12 +9,12 @@
       }
       func (e UnaryLogic) String() string {            // the "!" form; the NOT form joins with a space
           operand := e.Operand.String()
-          if strings.HasPrefix(operand, "!") { return e.Operator.String() + " " + operand }
+          if strings.HasPrefix(operand, "!") || strings.HasPrefix(operand, ":") { return e.Operator.String() + " " + operand }
           return e.Operator.String() + operand
       }
       func (p Parentheses) String() string { return "(" + p.Expr.String() + ")" }
 
-  `printOld` is the printer before the repairs c4eeafc / 98baed3 (operator immediately followed by the operand).
+  `printOld` is the printer before the repairs c4eeafc / 98baed3 (and the later `:` case) (operator immediately followed by the operand).
 -/
 namespace Csvq.UPrint
 
@@ -36,7 +36,7 @@ def UExpr.print : UExpr → List Char
   | .atom t => t
   | .neg e => if startsWith '-' e.print then '-' :: ' ' :: e.print else '-' :: e.print
   | .pos e => '+' :: e.print
-  | .bang e => if startsWith '!' e.print then '!' :: ' ' :: e.print else '!' :: e.print
+  | .bang e => if startsWith '!' e.print || startsWith ':' e.print then '!' :: ' ' :: e.print else '!' :: e.print
   | .paren e => '(' :: (e.print ++ [')'])
 
 /-- the `String()` methods before c4eeafc / 98baed3: operator immediately followed by the operand's text -/
